@@ -22,6 +22,7 @@ import (
 	"time"
 
 	"github.com/youchainhq/go-youchain/common"
+	"github.com/youchainhq/go-youchain/consensus/ucon"
 	"github.com/youchainhq/go-youchain/core"
 	"github.com/youchainhq/go-youchain/core/state"
 	"github.com/youchainhq/go-youchain/core/types"
@@ -66,9 +67,20 @@ type Beh struct {
 	Blocks [][]Case `json:"blocks"`
 }
 
-const nVals = 4
+// identities v1..v7: v1..v5 and v7 are genesis validators, v6 is created by a transaction.  Set changes of the base chain
+// (params.ACoCHTFrequency is a constant, 32768: the certificate look-back block of every round of the fixture is the genesis
+// block; stake look-back = round - 4; evidence round 13 -> blocks 0 and 9):
+//
+//	block 8 (period end): delegations to v2 take effect (stake order changes), v6's creation takes effect (new validator),
+//	                      v7's complete withdrawal takes effect (removed): all between the two look-back blocks;
+//	block 12 (period end): v5's complete withdrawal takes effect (removed since both look-back blocks), v2's partial
+//	                      withdrawal and d1's partial undelegation take effect (pending withdraw records).
+const nVals = 7
 
-var kindNo = map[string]uint8{"prevote": staking.Prevote, "precommit": staking.Precommit, "nextindex": staking.NextIndex, "certificate": staking.Certificate}
+// The vote-type numbers are the PROTOCOL's (consensus/ucon/types.go VoteType: what a voter puts into an evidence, voter.go:645),
+// not the staking package's private copy of them.
+var kindNo = map[string]uint8{"prevote": uint8(ucon.Prevote), "precommit": uint8(ucon.Precommit), "nextindex": uint8(ucon.NextIndex),
+	"certificate": uint8(ucon.Certificate)}
 var hashes = map[string]common.Hash{"A": {0xaa, 1}, "B": {0xbb, 2}, "C": {0xcc, 3}, "E": {}}
 
 type world struct {
@@ -83,7 +95,8 @@ type world struct {
 func newWorld() (*world, error) {
 	dlg := fixture.Keys("dlg", 2)
 	alloc := core.GenesisAlloc{dlg[1].Addr: {Balance: big.NewInt(1000000)}, dlg[2].Addr: {Balance: big.NewInt(1000000)}}
-	cw, err := chainfx.NewWorld(chainfx.Opts{Alloc: alloc, TwoNodes: true, NVals: nVals, ValTokens: []int64{1230, 1000, 300, 2000}})
+	cw, err := chainfx.NewWorld(chainfx.Opts{Alloc: alloc, TwoNodes: true, NVals: nVals, ValTokens: []int64{1230, 1000, 300, 2000, 600, 0, 400},
+		NotInGenesis: map[int]bool{6: true}})
 	if err != nil {
 		return nil, err
 	}
@@ -92,9 +105,10 @@ func newWorld() (*world, error) {
 		w.names[w.Vals[i].Addr] = i
 	}
 	w.dnames[dlg[1].Addr], w.dnames[dlg[2].Addr] = 1, 2
-	v2 := w.Vals[2]
+	v2, v5, v6, v7 := w.Vals[2], w.Vals[5], w.Vals[6], w.Vals[7]
 	cb := w.Vals[4].Addr
-	blocks := map[int][]func() (*types.Transaction, error){
+	type mk func() (*types.Transaction, error)
+	blocks := map[int][]mk{
 		1: {func() (*types.Transaction, error) {
 			return w.StakingTx(v2, 0, staking.ValidatorUpdate, &staking.TxUpdateValidator{MainAddress: v2.Addr, AcceptDelegation: params.AcceptDelegation,
 				CommissionRate: 1000, RiskObligation: 2000}, 300000)
@@ -103,17 +117,24 @@ func newWorld() (*world, error) {
 			return w.StakingTx(dlg[1], 0, staking.DelegationAdd, &staking.TxDelegation{Validator: v2.Addr, Value: big.NewInt(250)}, 300000)
 		}, func() (*types.Transaction, error) {
 			return w.StakingTx(dlg[2], 0, staking.DelegationAdd, &staking.TxDelegation{Validator: v2.Addr, Value: big.NewInt(130)}, 300000)
+		}, func() (*types.Transaction, error) {
+			return w.StakingTx(v6, 0, staking.ValidatorCreate, &staking.TxCreateValidator{Name: "v6", OperatorAddress: v6.Addr, Coinbase: v6.Addr,
+				MainPubKey: v6.PubComp, BlsPubKey: v6.BlsPkB, Value: big.NewInt(1500), Role: chainfx.RoleOf(6)}, 1500000)
+		}, func() (*types.Transaction, error) {
+			return w.StakingTx(v7, 0, staking.ValidatorWithDraw, &staking.TxValidatorWithdraw{MainAddress: v7.Addr, Recipient: v7.Addr, Value: big.NewInt(400)}, 300000)
 		}},
 		9: {func() (*types.Transaction, error) {
 			return w.StakingTx(dlg[1], 1, staking.DelegationSub, &staking.TxDelegation{Validator: v2.Addr, Value: big.NewInt(100)}, 300000)
 		}, func() (*types.Transaction, error) {
 			return w.StakingTx(v2, 1, staking.ValidatorWithDraw, &staking.TxValidatorWithdraw{MainAddress: v2.Addr, Recipient: v2.Addr, Value: big.NewInt(230)}, 300000)
+		}, func() (*types.Transaction, error) {
+			return w.StakingTx(v5, 0, staking.ValidatorWithDraw, &staking.TxValidatorWithdraw{MainAddress: v5.Addr, Recipient: v5.Addr, Value: big.NewInt(600)}, 300000)
 		}},
 	}
 	for n := 1; n <= 13; n++ {
 		var txs []*types.Transaction
-		for _, mk := range blocks[n] {
-			tx, err := mk()
+		for _, f := range blocks[n] {
+			tx, err := f()
 			if err != nil {
 				return nil, err
 			}
@@ -128,10 +149,43 @@ func newWorld() (*world, error) {
 		return nil, err
 	}
 	p := w.proj(st)
-	if len(p.Vals[1].Dl) != 2 || len(p.Wq) != 2 {
-		return nil, fmt.Errorf("fixture: base chain did not produce two delegations and two withdraw records: %+v", p)
+	// what the cases rely on: delegations and pending withdraw records of v2, v6 exists, v5 and v7 are gone, and the signer
+	// indexes differ between the two look-back sets of round 13
+	if len(p.Vals[1].Dl) != 2 || !p.Vals[5].Exists || p.Vals[4].Exists || p.Vals[6].Exists {
+		return nil, fmt.Errorf("fixture: base chain state is not the expected one: %+v", p)
+	}
+	cert, stake, err := w.lookBackSets(w.A.BC, 13)
+	if err != nil {
+		return nil, err
+	}
+	differ := 0
+	for i := 1; i <= nVals; i++ {
+		ci, cok := cert.GetIndex(w.Vals[i].Addr)
+		si, sok := stake.GetIndex(w.Vals[i].Addr)
+		if cok != sok || ci != si {
+			differ++
+		}
+	}
+	if _, ok := cert.GetIndex(v6.Addr); ok || differ < 4 {
+		return nil, fmt.Errorf("fixture: the look-back sets of round 13 do not differ as intended (%d differences)", differ)
+	}
+	if _, ok := stake.GetIndex(v7.Addr); ok {
+		return nil, fmt.Errorf("fixture: v7 is still in the stake look-back set")
 	}
 	return w, nil
+}
+
+// lookBackSets returns the certificate look-back set and the stake look-back set of a round.
+func (w *world) lookBackSets(bc *core.BlockChain, round uint64) (cert, stake *state.Validators, err error) {
+	cr, err := bc.LookBackVldReaderForRound(round, true)
+	if err != nil {
+		return nil, nil, err
+	}
+	sr, err := bc.LookBackVldReaderForRound(round, false)
+	if err != nil {
+		return nil, nil, err
+	}
+	return cr.GetValidators(), sr.GetValidators(), nil
 }
 
 // ---------------------------------------------------------------------------------------------------- projection
@@ -206,31 +260,51 @@ func (w *world) sign(k *fixture.Key, tag string, h common.Hash, round uint64, ri
 
 func (w *world) evidence(c *Case, parent0 uint64, cur *state.Validators, bc *core.BlockChain) (staking.Evidence, error) {
 	c.Round = uint64(int64(parent0) + int64(c.Roff))
-	// the signer index refers to the look-back validator set of the evidence's round (certificate look-back for
-	// certificate votes), which is ordered by stake at that height
-	vs := cur
-	if rd, err := bc.LookBackVldReaderForRound(c.Round, c.Kind == "certificate"); err == nil {
-		vs = rd.GetValidators()
+	// The signer index refers to the look-back validator set the PROTOCOL prescribes for the vote kind: certificate votes are
+	// cast by the certificate committee, drawn from the certificate look-back set; every other vote from the stake look-back
+	// set.  Both are ordered by stake at their height.  (For a round whose look-back blocks do not exist yet the current set
+	// stands in.)
+	pres, other := cur, cur
+	if cert, stake, err := w.lookBackSets(bc, c.Round); err == nil {
+		pres, other = stake, cert
+		if c.Kind == "certificate" {
+			pres, other = cert, stake
+		}
 	}
 	key := w.Vals[c.Signer]
+	oor := uint32(pres.Len() + other.Len() + 3)
 	switch c.Idx {
 	case "right":
-		c.Target = c.Signer
+		// the signer's index in the prescribed set (none: the signer was no member, it cannot have cast such a vote)
+		if i, ok := pres.GetIndex(key.Addr); ok {
+			c.SignerIdx = uint32(i)
+		} else {
+			c.SignerIdx = oor
+		}
+	case "wrongset":
+		// the signer's index in the OTHER look-back set
+		if i, ok := other.GetIndex(key.Addr); ok {
+			c.SignerIdx = uint32(i)
+		} else {
+			c.SignerIdx = oor
+		}
 	case "wrong":
-		c.Target = c.Signer%nVals + 1
+		// the index of another validator
+		o := w.Vals[c.Signer%4+1]
+		if i, ok := pres.GetIndex(o.Addr); ok {
+			c.SignerIdx = uint32(i)
+		} else {
+			c.SignerIdx = oor
+		}
 	case "oor":
-		c.Target = 0
+		c.SignerIdx = oor
 	default:
 		return staking.Evidence{}, fmt.Errorf("unknown idx class %q", c.Idx)
 	}
-	if c.Target == 0 {
-		c.SignerIdx = uint32(vs.Len() + 3)
-	} else {
-		i, ok := vs.GetIndex(w.Vals[c.Target].Addr)
-		if !ok {
-			return staking.Evidence{}, fmt.Errorf("validator %d not in the set", c.Target)
-		}
-		c.SignerIdx = uint32(i)
+	// whom the index names in the prescribed set
+	c.Target = 0
+	if v, ok := pres.GetByIndex(int(c.SignerIdx)); ok {
+		c.Target = w.names[v.MainAddress()]
 	}
 	kind, ok := kindNo[c.Kind]
 	if !ok {
